@@ -161,7 +161,8 @@ def run_property(pid, tier, seed, args):
         obligations += rep.obligations
         reports.append({'contract': c, 'rep': rep, 'error': None, 'gen_s': time.time() - t1})
 
-    if not obligations and spec.get('level') != 'exploration':
+    if not obligations and spec.get('level') != 'exploration' and not undecided_fns:
+        # (functions that left the subset are reported as UNDECIDED above; the bounded contracts below still run)
         log('CHECK-ERROR property=%s zero obligations generated' % pid)
         return 3
 
